@@ -221,7 +221,11 @@ Definition set_inq (b : bool) (r : receiver) : receiver :=
 Definition set_req (q : N) (r : receiver) : receiver :=
   mkReceiver (r_prefix r) (r_got r) (r_cur r) (r_total r) (r_inq r) q (r_deliv r).
 
-(** tryAcquireMemory: the result tells whether the memory was acquired *)
+(** tryAcquireMemory: the result tells whether the memory was acquired.
+    Go: tryAcquireMemoryForTheFirst; checkMemoryWaiters; and then, back in ensureWindowSize,
+    messagesTotalOffset += requestedMemorySize; requestedMemorySize = 0.  The model performs these two
+    assignments ([grant]) before checkMemoryWaiters: the connection has left the queue by then, and
+    checkMemoryWaiters neither reads nor writes connections outside the queue, so the order is not observable. *)
 Definition try_acquire (c : nat) (s : state) : bool * state :=
   let s1 := if r_inq (rcvr (getc c s)) then s
             else upd_rcv c (set_inq true) (mkState (st_conns s) (st_acq s) (st_wait s ++ [c]) (st_net s)) in
@@ -230,7 +234,7 @@ Definition try_acquire (c : nat) (s : state) : bool * state :=
       if Nat.eqb w c then
         let req := r_req (rcvr (getc c s1)) in
         if st_acq s1 + req <=? limit then
-          (true, check_waiters (upd_rcv c (set_inq false) (mkState (st_conns s1) (st_acq s1 + req) rest (st_net s1))))
+          (true, check_waiters (upd_rcv c grant (mkState (st_conns s1) (st_acq s1 + req) rest (st_net s1))))
         else (false, s1)
       else (false, s1)
   | [] => (false, s1)
@@ -246,12 +250,7 @@ Definition ensure_window (c : nat) (seq : N) (ch : chunk) (s : state) : bool * s
     else
       let delta := e - r_total r in
       if r_inq r && (r_req r <=? delta) then (false, s)
-      else
-        let '(ok, s2) := try_acquire c (upd_rcv c (set_req delta) s) in
-        if ok then
-          (true, upd_rcv c (fun r2 => mkReceiver (r_prefix r2) (r_got r2) (r_cur r2) (r_total r2 + r_req r2)
-                                                   (r_inq r2) 0 (r_deliv r2)) s2)
-        else (false, s2).
+      else try_acquire c (upd_rcv c (set_req delta) s).
 
 (** moveWindowPrefix (StreamLikeIncoming) *)
 Fixpoint move_prefix (fuel : nat) (c : nat) (s : state) : state :=
